@@ -264,13 +264,13 @@ def abs (c : CLru K V) : Option (ALru K V) :=
 
 /-! ### executable well-formedness check (used by the driver and by the C16 witnesses) -/
 
-/-- forward walk = reverse of backward walk, `_dict` maps exactly the keys of the walked
-    nodes to them, `len(_dict)` is the number of nodes.  `keys` is the key universe the
-    dictionary is probed on. -/
+/-- forward walk = reverse of backward walk, no node twice, all nodes were created by this
+    cache, `_dict` maps exactly the keys of the walked nodes to them, `len(_dict)` is the number
+    of nodes.  `keys` is the key universe the dictionary is probed on. -/
 def wfCheck (c : CLru K V) (keys : List K) : Bool :=
   match walkNxt c.heap (c.size + 1) c.head, walkPrv c.heap (c.size + 1) c.tail with
   | some f, some b =>
-    f == b.reverse && f.length == c.size &&
+    f == b.reverse && f.length == c.size && decide f.Nodup && f.all (fun i => decide (i < c.fresh)) &&
     f.all (fun i => c.dict (c.heap i).key == some i) &&
     keys.all (fun k => match c.dict k with
       | none => true
